@@ -6,6 +6,7 @@ Ctx.branch, which asks the solver whether the condition is decided under the
 current path condition and otherwise forks.  Exploration is depth first over
 decision vectors with re-execution from scratch (the code under test is pure).
 """
+import os
 import time
 import z3
 
@@ -34,11 +35,19 @@ class Stats:
         self.unknown = 0
         self.solver_s = 0.0
         self.identity_queries = 0
+        # second solver (cvc5) on a sample of the queries z3 answered `unsat`
+        self.cross_checked = 0
+        self.cross_agree = 0
+        self.cross_undecided = 0
+        self.cross_disagree = []
+        self.cross_s = 0.0
 
     def as_dict(self):
         return dict(queries=self.queries, unsat=self.unsat, sat=self.sat,
                     unknown=self.unknown, solver_s=round(self.solver_s, 3),
-                    identity_queries=self.identity_queries)
+                    identity_queries=self.identity_queries,
+                    cross_checked=self.cross_checked, cross_agree=self.cross_agree, cross_undecided=self.cross_undecided,
+                    cross_disagree=len(self.cross_disagree), cross_s=round(self.cross_s, 3))
 
 
 STATS = Stats()
@@ -51,6 +60,51 @@ def check_deadline():
         raise PathLimit("time budget of the obligation exhausted")
 
 
+CROSS = {"max": int(os.environ.get("SYMX_CROSSCHECK", "0") or 0), "timeout_ms": int(os.environ.get("SYMX_CROSSCHECK_MS", "8000"))}
+
+
+def _cross_check(solver):
+    """diff a second solver on a sample of `unsat` verdicts (the verdicts that prune paths and discharge goals): the first 12, then
+    every 7th, up to CROSS["max"] per obligation.  cvc5 `sat` against z3 `unsat` is a harness error; cvc5 timeouts / unsupported
+    syntax are counted as undecided."""
+    n = STATS.unsat
+    if STATS.cross_checked >= CROSS["max"] or (n > 12 and n % 7):
+        return
+    t0 = time.time()
+    verdict = "undecided"
+    try:
+        import cvc5
+        txt = solver.to_smt2()
+        slv = cvc5.Solver()
+        slv.setOption("tlimit-per", str(CROSS["timeout_ms"]))
+        slv.setLogic("ALL")
+        p = cvc5.InputParser(slv)
+        p.setStringInput(cvc5.InputLanguage.SMT_LIB_2_6, txt, "q")
+        sm = p.getSymbolManager()
+        out = ""
+        while True:
+            cmd = p.nextCommand()
+            if cmd.isNull():
+                break
+            out = str(cmd.invoke(slv, sm)).strip() or out
+        if out == "unsat":
+            verdict = "agree"
+        elif out == "sat":
+            verdict = "disagree"
+    except BaseException as e:   # parse errors, unsupported operators, resource limits of the second solver
+        if isinstance(e, (KeyboardInterrupt, SystemExit)):
+            raise
+        verdict = "undecided"
+    STATS.cross_checked += 1
+    STATS.cross_s += time.time() - t0
+    if verdict == "agree":
+        STATS.cross_agree += 1
+    elif verdict == "disagree":
+        STATS.cross_disagree.append(txt[:20000])
+    else:
+        STATS.cross_undecided += 1
+
+
 def timed_check(solver, *extra):
     t0 = time.time()
     r = solver.check(*extra)
@@ -59,6 +113,8 @@ def timed_check(solver, *extra):
     s = str(r)
     if s == "unsat":
         STATS.unsat += 1
+        if CROSS["max"] and not extra:
+            _cross_check(solver)
     elif s == "sat":
         STATS.sat += 1
     else:
